@@ -32,7 +32,9 @@ right after the object's own fields.  What holds:
 * `example`s: the witnesses above, a larger instance evaluated by the kernel on both sides, the new hypotheses
   of `WfASX` cannot be dropped.
 
-That the renumbering is invisible in the generated code is `Proofs/C07ExtensionsCodegen.lean`.
+That the renumbering is invisible in the generated code is `Proofs/C07ExtensionsCodegen.lean`
+(`codegen_respects_field_renumbering`, `codegen_equal_ext_of_renderings`); type-order permutations within a kind are
+`Proofs/C07Permutations.lean` (`toSchema_perm`, `frontends_iso_perm`).
 -/
 
 namespace GqlVerif
@@ -96,37 +98,48 @@ theorem flatMap_append_perm' {α β} (l : List α) (f g : α → List β) :
 
 
 
+/-- one `extend type name [implements …] { fields }` block -/
 structure AExt where
   name : String
   implements : List String
   fields : List AField
   deriving Repr, DecidableEq, Inhabited
 
+/-- abstract schema with `extend type` blocks: `exts` in document order (blocks of different objects may be
+interleaved, an object may have several blocks or none) -/
 structure ASX where
   base : AS
   exts : List AExt := []
   deriving Repr, DecidableEq, Inhabited
 
+/-- SDL rendering of a block -/
 def sdlExt (e : AExt) : SdlDef := .extObject e.name e.implements (e.fields.map sdlField)
 
+/-- the blocks of the object named `n`, in document order -/
 def extsOf (exts : List AExt) (n : String) : List AExt := exts.filter (·.name == n)
 
+/-- an object with its blocks folded in: interfaces appended, fields appended, in block order -/
 def foldObj (exts : List AExt) (o : AObj) : AObj :=
   { o with implements := o.implements ++ (extsOf exts o.name).flatMap (·.implements)
            fields := o.fields ++ (extsOf exts o.name).flatMap (·.fields) }
 
+/-- the schema an introspection response describes -/
 def ASX.fold (x : ASX) : AS := { x.base with objects := x.base.objects.map (foldObj x.exts) }
 
+/-- `find_type_id(name).as_object_id()` -/
 def objIdx (N : List (String × TypeId)) (n : String) : Nat := ((namesGet n N).bind TypeId.asObject?).getD 0
 
+/-- the stored fields pass 5 appends to the field table, in block order -/
 def extFields (N : List (String × TypeId)) : List AExt → List StoredField
   | [] => []
   | e :: es => e.fields.map (storedField N (.object (objIdx N e.name))) ++ extFields N es
 
+/-- what pass 5 does to the extended object (`start` = id of the block's first field) -/
 def extApply (N : List (String × TypeId)) (start : Nat) (e : AExt) (o : StoredObject) : StoredObject :=
   { o with implements := o.implements ++ e.implements.map (ifaceId N)
            fields := o.fields ++ List.range' start e.fields.length }
 
+/-- the object table after pass 5 -/
 def extObjs (N : List (String × TypeId)) : Nat → List AExt → List StoredObject → List StoredObject
   | _, [], os => os
   | start, e :: es, os => extObjs N (start + e.fields.length) es (os.modify (objIdx N e.name) (extApply N start e))
@@ -154,6 +167,7 @@ theorem set_eq_modify {α} (l : List α) (i : Nat) (f : α → α) (x : α) (h :
     simp [this, hx]
   · simp [hij]
 
+/-- pass 5 of `build_schema`, closed form -/
 theorem sdl_exts (es : List AExt) (s : Schema)
     (hid : ∀ e ∈ es, ∃ k, namesGet e.name s.names = some (.object k) ∧ k < s.objects.length)
     (hf : ∀ e ∈ es, ∀ f ∈ e.fields, ∃ id, namesGet f.ty.base s.names = some id)
@@ -184,7 +198,8 @@ theorem sdl_exts (es : List AExt) (s : Schema)
     · exact fun e' he' => him e' (by simp [he'])
 
 
-/-- `doc` is an SDL rendering of `x` -/
+/-- `doc` is an SDL rendering of `x`: as `IsSdlOf`, with the `extend type` definitions (pass 5) being the
+renderings of `x.exts` in order — wherever they stand in the document -/
 structure IsSdlOfX (x : ASX) (doc : SdlDoc) : Prop where
   scalars : ofPass doc 0 = x.base.scalars.map .scalar
   enums : ofPass doc 1 = x.base.enums.map sdlEnum
@@ -196,11 +211,15 @@ structure IsSdlOfX (x : ASX) (doc : SdlDoc) : Prop where
   roots : schemaBlock doc = some (x.base.query, x.base.mutation, x.base.subscription) ∨
     (schemaBlock doc = none ∧ x.base.DefaultRoots)
 
+/-- **the `Schema` the SDL front-end builds for `x`**: that of the base schema, with the extension fields appended
+to the field table (after *all* ordinary fields) and the objects patched -/
 def ASX.sdlSchema (x : ASX) : Schema :=
   let b := x.base.toSchema
   { b with fields := b.fields ++ extFields b.names x.exts
            objects := extObjs b.names b.fields.length x.exts b.objects }
 
+/-- well-formedness: the base schema is well-formed; every block names a defined *object* (otherwise the SDL
+front-end panics, while the folded schema silently drops the block); block fields / interfaces are defined -/
 def WfASX (x : ASX) : Prop :=
   WfAS x.base ∧ (∀ e ∈ x.exts, e.name ∈ x.base.objNames) ∧
   (∀ e ∈ x.exts, ∀ f ∈ e.fields, f.ty.base ∈ x.base.known) ∧
@@ -234,6 +253,7 @@ theorem sdl_populateX (x : ASX) (doc : SdlDoc) (h : IsSdlOfX x doc) (s : Schema)
   | nil => rfl
   | cons o os ih => simp [objStored, ih]
 
+/-- **the SDL front-end computes `x.sdlSchema`** on every SDL rendering of a well-formed `x` -/
 theorem sdl_spec_ext (x : ASX) (doc : SdlDoc) (hw : WfASX x) (hd : IsSdlOfX x doc) :
     Sdl.fromSdl doc = .ok x.sdlSchema := by
   obtain ⟨⟨hn, hif, hof, him, hun, hinp⟩, hen, hef, hei⟩ := hw
@@ -1093,7 +1113,17 @@ example : IsSdlOfX exASX exDocX :=
 
 /-- both front-ends *evaluate* to the closed forms (kernel computation, independent of the theorems) … -/
 example : (Sdl.fromSdl exDocX).toOption = some exASX.sdlSchema := by decide
-example : (Intro.fromIntro true (some (introOf ["ID"] exFold))).toOption = some exFold.toSchema := by decide +kernel
+example : (Intro.fromIntro true (some (introOf ["ID"] exFold))).toOption.map
+      (fun s => (s.objects, s.interfaces, s.fields, s.unions)) =
+    some (exFold.toSchema.objects, exFold.toSchema.interfaces, exFold.toSchema.fields, exFold.toSchema.unions) := by
+  decide
+example : (Intro.fromIntro true (some (introOf ["ID"] exFold))).toOption.map
+      (fun s => (s.scalars, s.enums, s.inputs)) =
+    some (exFold.toSchema.scalars, exFold.toSchema.enums, exFold.toSchema.inputs) := by decide
+example : (Intro.fromIntro true (some (introOf ["ID"] exFold))).toOption.map
+      (fun s => (s.names, s.queryType, s.mutationType, s.subscriptionType)) =
+    some (exFold.toSchema.names, exFold.toSchema.queryType, exFold.toSchema.mutationType,
+      exFold.toSchema.subscriptionType) := by decide
 /-- … which differ, and agree after the renumbering; the SDL ids in owner order: -/
 example : exASX.sdlSchema ≠ exFold.toSchema := by decide
 example : exASX.sdlSchema.fieldOrder = [0, 1, 2, 3, 4, 5, 6, 7, 8, 16, 18, 19, 9, 10, 11, 12, 17, 13, 14, 15] := by decide
